@@ -139,6 +139,32 @@ func init() {
 				}
 				x.check(ok, "func="+prog.FnName(fn)+" result=(status==attached)", x.fpos(fn), "true exactly for status attached", "IsAttached is no longer (status == attached): version-vector rows of detached clients would be kept or attached ones dropped")
 			}
+			// the boolean predicates: true only for exactly the state they name
+			for _, pd := range []struct {
+				name, status string
+				extra        bool // also requires the boolean parameter
+			}{{"IsAttaching", attaching, false}, {"IsAlreadyDetached", detached, true}} {
+				fn := x.fn(dbPkg + ".(*ClientInfo)." + pd.name)
+				if fn == nil {
+					continue
+				}
+				ts := trueSites(fn, 0)
+				if len(ts) == 0 {
+					x.fail("func="+prog.FnName(fn)+" true-result", x.fpos(fn), "the predicate is never true")
+				}
+				for i, s := range ts {
+					k := fmt.Sprintf("func=%s true#%d", prog.FnName(fn), i+1)
+					x.guardedBool(k+" status=="+pd.status, s, []Cmp{{L: vpField(docStatus), R: vpStr(pd.status), Want: EQ}})
+					x.guardedBool(k+" entry-exists", s, exists)
+					if pd.extra {
+						for pi, pm := range fn.Params {
+							if isBoolType(pm.Type()) {
+								x.guardedBool(k+" flag-set", s, []Cmp{isTrue(vpParam(fn, pi))})
+							}
+						}
+					}
+				}
+			}
 			// UpdateDocStatus dispatch
 			if fn := x.fn(dbPkg + ".(*ClientInfo).UpdateDocStatus"); fn != nil {
 				stRemoved, okA := x.constInt("pkg/document.StatusRemoved")
